@@ -1,5 +1,8 @@
 //! `mc` — bounded-exhaustive model checking of toml-rs/toml.  One subcommand per property.
 mod c03;
+mod c10;
+mod c11;
+mod c12;
 mod c14;
 mod c15;
 mod c20;
@@ -29,6 +32,9 @@ fn main() {
             "C01" | "C02" | "C09" => c_docs::replay(prop, path),
             "C03" => c03::replay(path),
             "C14" => c14::replay(path),
+            "C12" => c12::replay(path),
+            "C11" => c11::replay(path),
+            "C10" => c10::replay(path),
             "C15" => c15::replay(path),
             "C20" => c20::replay(path),
             _ => {
@@ -55,6 +61,9 @@ fn main() {
         "C09" => c_docs::c09(tier),
         "C03" => c03::c03(tier),
         "C14" => c14::c14(tier),
+        "C12" => c12::c12(tier),
+        "C11" => c11::c11(tier),
+        "C10" => c10::c10(tier),
         "C15" => c15::c15(tier),
         "C20" => c20::c20(tier),
         _ => {
